@@ -5,8 +5,9 @@
 (c) DIRECT  P̂ on grass's own output: every module evaluated / every marker emitted at most once
             (driver `module once`), no private member ever visible, the forward relation on triangles
             (driver `module allows`), and obs(grass) == obs(model, switches `spec`) — the module model
-            is the reference the property describes; a difference explained by a known switch is a
-            KNOWN-FINDING, anything else a VIOLATION.
+            is the reference the property describes.  A difference is classified by the smallest set
+            of (formerly found, now fixed) switches that explains it; the findings are `fixed`, so a
+            reappearance is a VIOLATION carrying those tags.
 """
 import json
 import re
@@ -550,6 +551,8 @@ class Gen:
             vis = ("A",)
         else:
             vis = ("S" if rr < 0.65 else "H", r.sample(cand_v, r.choice([0, 1, 2, 3])), r.sample(cand_f, r.choice([0, 1, 2])))
+            if r.random() < 0.3:        # a list naming a single member kind (the other kind's list is EMPTY, not absent)
+                vis = (vis[0], vis[1] or [r.choice(cand_v)], []) if r.random() < 0.5 else (vis[0], [], vis[2] or [r.choice(cand_f)])
             if not vis[1] and not vis[2]:
                 vis = (vis[0], [r.choice(cand_v)], [])
         mid = {"name": "mid", "partial": r.random() < 0.3, "body": [("W", self.spelling("a", info["a"]["partial"]), pfx, vis, [])]}
@@ -572,6 +575,102 @@ class Gen:
         body += [("K", self.p(), "v", "mid"), ("K", self.p(), "f", "mid")]
         feat |= {"triangle", "forward"} | ({"prefix"} if pfx else set()) | ({"show"} if vis[0] == "S" else {"hide"} if vis[0] == "H" else set())
         return {"entry": "main", "mods": [a, mid, {"name": "main", "partial": False, "body": body}], "feat": sorted(feat)}
+
+    def special(self):
+        x = self.rng.random()
+        if x < 0.12:
+            return self.triangle()
+        if x < 0.20:
+            return self.chain3()
+        if x < 0.28:
+            return self.assign_chain()
+        return None
+
+    def chain3(self):
+        """main -> a with(...) -> b (plain @use, @forward, or @forward … with) -> c: configuration must stop at a plain
+        @use, pass through @forward, and every level declares same-named variables with and without !default"""
+        r = self.rng
+        self.val, self.pid = 0, 0
+        self.targets = set()
+        names = ["c", "b", "a"]
+        mods = []
+        decl = {}
+        for i, nm in enumerate(names):
+            body = []
+            vs = {n: r.random() < 0.6 for n in r.sample(VARS, r.choice([1, 2, 3]))}
+            decl[nm] = vs
+            if i > 0:
+                t = names[i - 1]
+                kind = r.choice(["use", "use", "forward", "forward-prefix", "forward-with"])
+                if kind == "use":
+                    body.append(("U", (t, False, False, False), r.choice(["=", "n1", "*"]), []))
+                elif kind == "forward":
+                    body.append(("W", (t, False, False, False), None, ("A",), []))
+                elif kind == "forward-prefix":
+                    body.append(("W", (t, False, False, False), r.choice(PFXS), ("A",), []))
+                else:
+                    cfg = [(n, self.v(), r.random() < 0.6) for n in r.sample(VARS, r.choice([1, 2]))]
+                    body.append(("W", (t, False, False, False), None, ("A",), cfg))
+                if r.random() < 0.3:
+                    body.append(("U", (names[0], False, False, False), "deep", []))
+            for n, g in vs.items():
+                body.append(("V", n, self.v(), g))
+            body += [("F", "get" + list(vs)[0], list(vs)[0]), ("D",), ("C",)]
+            mods.append({"name": nm, "partial": False, "body": body})
+        declared = sorted({n for nm in names for n in decl[nm]})
+        pool_ = declared if r.random() < 0.7 else VARS + ["p-x", "q-y", "xz"] + [p_ + n for p_ in PFXS for n in declared]
+        cfg_names = r.sample(pool_, min(len(pool_), r.choice([1, 1, 2])))
+        main = [("U", ("a", False, False, False), "=", [(n, self.v()) for n in cfg_names])]
+        for t in ("b", "c"):
+            if r.random() < 0.7:
+                main.append(("U", (t, False, False, False), "=", []))
+        main += [("D",), ("C",)]
+        for ns in [s_[1][0] for s_ in main if s_[0] == "U"]:
+            for n in VARS + ["p-x", "q-y", "xz"]:
+                main.append(("P", self.p(), True, "v", ns, n))
+            for nm in names:
+                for n in decl[nm]:
+                    main.append(("P", self.p(), True, "f", ns, "get" + n))
+        mods.append({"name": "main", "partial": False, "body": main})
+        return {"entry": "main", "mods": mods, "feat": ["chain3", "use-with"]}
+
+    def assign_chain(self):
+        """a <- mid (@forward, maybe prefixed / limited) <- top (@forward mid); main uses all of them under several aliases,
+        assigns repeatedly through random aliases and reads through every alias after each assignment"""
+        r = self.rng
+        self.val, self.pid = 0, 0
+        self.targets = set()
+        avars = r.sample(VARS, r.choice([2, 3]))
+        a = {"name": "a", "partial": r.random() < 0.3,
+             "body": [("V", n, self.v(), r.random() < 0.5) for n in avars] + [("F", "get" + avars[0], avars[0]), ("D",), ("C",)]}
+        pfx = r.choice(PFXS + [None, None, None])
+        vis = ("A",) if r.random() < 0.6 else ("S", [(pfx or "") + n for n in r.sample(avars, r.choice([1, 2]))], [])
+        midbody = [("W", self.spelling("a", a["partial"]), pfx, vis, [])]
+        if r.random() < 0.4:
+            midbody.append(("V", r.choice(VARS), self.v(), False))       # an own variable, possibly shadowing a forwarded one
+        midbody += [("D",), ("C",)]
+        mid = {"name": "mid", "partial": False, "body": midbody}
+        top = {"name": "top", "partial": False, "body": [("W", ("mid", False, False, False), None, ("A",), []), ("D",)]}
+        aliases = [("a", "a"), ("mid", "mid"), ("top", "top"), ("a", "a2"), ("mid", "m2")]
+        used = [al for al in aliases if r.random() < 0.75] or aliases[:2]
+        body = [("U", (t, False, False, False), ns if ns != t else "=", []) for t, ns in used] + [("D",), ("C",)]
+        pv = lambda t, n: n if t == "a" else (pfx or "") + n
+
+        def reads():
+            for t, ns in used:
+                for n in avars:
+                    body.append(("P", self.p(), True, "v", ns, pv(t, n)))
+                body.append(("P", self.p(), True, "f", ns, pv(t, "get" + avars[0])))
+        reads()
+        for _ in range(r.choice([2, 3, 4])):
+            t, ns = r.choice(used)
+            n = r.choice(avars)
+            if t != "a" and vis[0] == "S" and pv(t, n) not in vis[1]:
+                n = vis[1][0][len(pfx or ""):]
+            body.append(("A", ns, pv(t, n), self.v(), r.random() < 0.1))
+            reads()
+        return {"entry": "main", "mods": [a, mid, top, {"name": "main", "partial": False, "body": body}],
+                "feat": ["assign-chain", "assign", "forward"] + (["prefix"] if pfx else [])}
 
     def variants(self, proj, model_ok):
         """projects that differ from `proj` by one unguarded (possibly failing) reference"""
@@ -656,21 +755,21 @@ def corpus():
     # D7 witness (fixed): show restricts
     add("forward-show", [], A_STD, M("mid", W("a", None, ("S", ["x"], []))),
         M("main", U("mid"), ("P", 1, True, "v", "mid", "x"), ("P", 2, True, "v", "mid", "y"), ("P", 3, True, "f", "mid", "f"), ("K", 4, "v", "mid")))
-    # known: prefix + hide loses every member of the kind
+    # F1 (fixed): prefix + hide lost every member of the kind
     add("prefix-hide", ["prefixedKeysBug"], A_STD, M("mid", W("a", "p-", ("H", ["p-y"], []))),
         M("main", U("mid"), ("P", 1, True, "v", "mid", "p-x"), ("P", 2, True, "v", "mid", "p-y"), ("P", 3, True, "f", "mid", "p-f")))
-    # known: module-variables omits prefixed forwarded members
+    # F1 (fixed): module-variables omitted prefixed forwarded members
     add("prefix-keys", ["prefixedKeysBug"], A_STD, M("mid", W("a", "p-"), ("V", "own", 9, False)),
         M("main", U("mid"), ("K", 1, "v", "mid"), ("K", 2, "f", "mid"), ("P", 3, True, "v", "mid", "p-x")))
-    # known: a module that only forwards with a prefix is dropped by a further @forward
+    # F1 (fixed): a module that only forwards with a prefix was dropped by a further @forward
     add("prefix-reforward", ["prefixedKeysBug"], A_STD, M("mid", W("a", "p-")), M("top", W("mid")),
         M("main", U("top"), U("mid"), ("P", 1, True, "v", "mid", "p-x"), ("P", 2, True, "v", "top", "p-x")))
-    # known: @forward … with under an outer configuration is never checked
+    # F2 (fixed): @forward … with under an outer configuration was never checked
     add("forward-with-unchecked", ["fwdCfgImplicit"], A_STD, M("mid", W("a", None, ("A",), [("zz", 7, False)])),
         M("main", U("mid", "=", [("x", 8)]), ("P", 1, True, "v", "mid", "x")))
     add("forward-with-nondefault-unchecked", ["fwdCfgImplicit"], A_STD, M("mid", W("a", None, ("A",), [("y", 7, False)])),
         M("main", U("mid", "=", [("x", 8)]), ("P", 1, True, "v", "mid", "y")))
-    # known: crash
+    # F3, F4 (fixed): crashes
     add("forward-with-through-view", ["viewIterPanics"], A_STD, M("mid", W("a", "p-", ("A",), [("y", 7, True)])),
         M("main", U("mid", "=", [("p-x", 8)]), ("P", 1, True, "v", "mid", "p-x")))
     add("assign-undefined-through-forward", ["mergedInsertPanics"], A_STD, M("mid", W("a")),
@@ -694,6 +793,21 @@ def corpus():
     # privacy
     add("private-ref", [], A_STD, M("main", U("a"), ("P", 1, False, "v", "a", "-p")))
     add("private-star", [], A_STD, M("main", U("a", "*"), ("P", 1, False, "f", None, "-h"), ("P", 2, False, "v", None, "-p")))
+    # configuration stops at a plain @use (three levels), passes through @forward
+    add("with-stops-at-plain-use", [], M("b", ("V", "x", 1, True), ("D",), ("C",)),
+        M("a", U("b"), ("V", "x", 2, True), ("D",), ("C",)),
+        M("main", U("a", "=", [("x", 9)]), U("b"), ("P", 1, True, "v", "a", "x"), ("P", 2, True, "v", "b", "x")))
+    add("with-not-taken-by-plain-use", [], M("b", ("V", "x", 1, True)), M("a", U("b"), ("V", "y", 2, True)),
+        M("main", U("a", "=", [("x", 9)])))
+    # a show list naming one member kind: the other kind is forwarded not at all
+    add("show-single-kind", [], A_STD, M("mid", W("a", None, ("S", ["x"], []))), M("mid2", W("a", None, ("S", [], ["f"]))),
+        M("main", U("mid"), U("mid2"), ("P", 1, True, "f", "mid", "f"), ("P", 2, True, "m", "mid", "m"), ("P", 3, True, "v", "mid", "x"),
+          ("P", 4, True, "v", "mid2", "x"), ("P", 5, True, "f", "mid2", "f"), ("P", 6, True, "m", "mid2", "m"), ("K", 7, "f", "mid"), ("K", 8, "v", "mid2")))
+    # repeated assignment through a forwarder reaches the upstream variable every time; no local copy appears
+    add("assign-twice-through-forward", [], A_STD, M("mid", W("a")),
+        M("main", U("mid"), U("a"), ("A", "mid", "y", 60, False), ("P", 1, True, "v", "a", "y"), ("A", "mid", "y", 61, False),
+          ("P", 2, True, "v", "a", "y"), ("P", 3, True, "v", "mid", "y"), ("A", "a", "y", 62, False), ("P", 4, True, "v", "mid", "y"),
+          ("P", 5, True, "f", "mid", "gx"), ("K", 6, "v", "mid")))
     # spellings of one partial
     add("spellings", [], M("a", ("V", "x", 1, False), ("D",), ("C",), partial=True),
         M("main", ("U", ("a", False, False, False), "=", []), ("U", ("a", True, False, False), "n1", []), ("U", ("a", False, True, True), "n2", []),
@@ -1053,15 +1167,12 @@ def run(tier, seed):
     cs = corpus()
     res = evaluate(ck, pool, cs, tier)
     failing += judge(ck, res)
-    for c, r in zip(cs, res):
-        exp = c.get("expect_tags") or []
-        if exp and r is not None and r["ci"] == r["cs"]:
-            ck.notes.append(f"stale known finding? witness {c['feat']} now behaves as specified")
+    ck.hist("corpus-regression-cases (witnesses of the fixed findings F1-F4, D7)", sum(1 for c in cs if c.get("expect_tags")))
     n = 1500 if tier == "quick" else 60000
     B = 500
     done = 0
     while done < n:
-        projs = [gen.triangle() if ck.rng.random() < 0.12 else gen.project() for _ in range(min(B, n - done))]
+        projs = [gen.special() or gen.project() for _ in range(min(B, n - done))]
         done += len(projs)
         res = evaluate(ck, pool, projs, tier)
         failing += judge(ck, res)
@@ -1077,7 +1188,7 @@ def run(tier, seed):
     if (not ck.proof["ok"] or ck.cov["model_disagreements"]) and not unknown and tier == "quick":
         log("[C12] proof or correspondence broken: enlarging the search")
         for _ in range(12):
-            projs = [gen.triangle() if ck.rng.random() < 0.12 else gen.project() for _ in range(B)]
+            projs = [gen.special() or gen.project() for _ in range(B)]
             extra = judge(ck, evaluate(ck, pool, projs, tier), count=False)
             failing += extra
             if [f for f in extra if not f["tags"]]:
